@@ -10,3 +10,4 @@ import MiniconfVerif.Props.C11
 #print axioms MiniconfVerif.C11.exactCounts_finished
 #print axioms MiniconfVerif.C11.exactCounts_items
 #print axioms MiniconfVerif.C11.exact_size_remaining
+#print axioms MiniconfVerif.C11.source_next_is_model
